@@ -165,6 +165,25 @@ def run_shard(ctx, shard):
             rows = [''.join(chars)] if horizontal else chars
             ctx.run_case({'kind': 'mixed', 'rows': rows, 'n': b, 'rk': 'h' if horizontal else 'v', 'dashed': any(c == a[1] for c in chars)})
             continue
+        elif q < 0.9:
+            # every character the tree under test gives a drawing meaning to (read from its tables, whatever their
+            # width): runs of it alone, next to the ASCII line characters, and small grids over a few of them
+            tree = ctx.extra['alphabet']
+            ch = rng.choice(tree)
+            n = rng.randint(2, 9)
+            m = rng.randrange(5)
+            if m == 0:
+                rows = [ch * n]
+            elif m == 1:
+                rows = [ch] * n
+            elif m == 2:
+                rows = [''.join(rng.choice([ch, ch, '-', '_', '=']) for _ in range(n))]
+            elif m == 3:
+                rows = [rng.choice([ch, ch, '|', '+']) for _ in range(n)]
+            else:
+                few = [ch, rng.choice(tree), rng.choice(tree), '-', '|', ' ']
+                rows = gen.random_grid(rng, ''.join(few), wmax=8, hmax=4)
+            ctx.tag('tree_alphabet_cases')
         else:
             kind, rows = gen.diagram(rng, circles)
         ctx.run_case({'kind': 'grid', 'rows': rows})
@@ -175,7 +194,9 @@ def run_shard(ctx, shard):
 def execute(run):
     binary = build_driver()
     info = driver_info(binary)
-    extra = {'circles': info['circles']}
+    alphabet = sorted(set((info.get('ascii', '') + info.get('unicode_properties', '') + info.get('unicode_fragments', '')).replace(' ', '')) - {'\n', '\t'})
+    extra = {'circles': info['circles'], 'alphabet': alphabet or list(gen.FULL)}
+    run.extra_cov['drawing_characters_of_the_tree'] = len(alphabet)
     shards = []
     if run.tier == 'quick':
         lengths = list(range(1, 61)) + [100, 200, 400]
